@@ -175,7 +175,10 @@ impl Lexicon {
                     );
                     return Err(VibratoError::invalid_format(name, msg));
                 }
-                let feature = std::str::from_utf8(&features_bytes[..features_len - 1])?;
+                // features_len counts the record terminator, which does not exist when the
+                // input ends right after the delimiter following the cost field.
+                let feature =
+                    std::str::from_utf8(&features_bytes[..features_len.saturating_sub(1)])?;
                 if surface.is_empty() {
                     eprintln!(
                         "Skipped an empty surface, {:?}",
